@@ -15,6 +15,7 @@
 From Coq Require Import List NArith Bool.
 From FS Require Import Sx Model.Path Model.Stat Model.AccEvents Model.ReceiverAcc
      Proofs.AccEventsP Proofs.ReceiverAccP.
+From FS Require Model.Lts Model.LtsRAcc Proofs.LtsRAccP6 Proofs.LtsRAccP7.
 Import ListNotations.
 Open Scope N_scope.
 
@@ -87,7 +88,42 @@ Theorem failure_is_latched : forall needs tr s,
   receiver_run needs tr = Some s -> r_ret s = Some false -> r_err s = true.
 Proof. exact failure_latched_proof. Qed.
 
+(* receiver_lts_refines_acc: the acceptor is tied to the goroutine-level LTS of C04/C08
+   (Model/Lts.v: receive loop, dynamicWalker.fill, the diff loop, the writer goroutines,
+   receiver.run's FIN/ERR goroutine, syncStream mutex, bounded stream - and the whole sender on
+   the other end).  For every LTS instance p, announced stats and needs predicate related by
+   [LtsRAcc.rabs_ok] (same number of entries; "file" = regular; content needed (ENeed) iff
+   the acceptor wants the entry: regular, no Linkname, needs path; non-empty payloads), every
+   FAULT-FREE run of the LTS from its initial state (no injected fault, cancellation, endpoint
+   failure or tear-down on either side; the transport closing the sender's direction after
+   Send has returned is allowed) produces at the receiver's boundary - packets concretised by
+   [LtsRAcc.receiver_events] (the i-th STAT received is stats[i], DATA id carries a non-empty
+   payload, DATAEND id the empty one, a writer's REQ id |-> Out (PReq id) where the mutex is
+   taken, EOF, the return at g.Wait()) - a trace that the acceptor follows, and the acceptor
+   has recorded the return value of Receive exactly when the LTS has.  Hence all theorems of
+   this file hold of those LTS runs.  (It uses the invariants of C04/C08 about reachable and
+   fault-free states - Proofs/Lts*.v - as lemmas; runs with faults are not covered.) *)
+Theorem receiver_lts_refines_acc :
+  forall (p : Lts.params) (stats : list stat) (needs : bytes -> bool) (pay : nat -> nat -> bytes)
+         (emsg smsg : bytes) (ls : list Lts.label) (st : Lts.state),
+  LtsRAcc.rabs_ok p stats needs pay ->
+  LtsRAcc.no_faults ls = true ->
+  Lts.run p (Lts.init p) ls = Some st ->
+  exists a, receiver_run needs (LtsRAcc.lts_rtrace p stats pay emsg smsg (Lts.init p) ls) = Some a /\
+            r_ret a = Lts.recv_ret st.
+Proof. intros p stats needs pay emsg smsg ls st Habs. exact (LtsRAccP6.receiver_lts_refines_acc_proof p stats needs pay emsg smsg Habs ls st). Qed.
+
+(* the abstraction is not vacuous: every announced sequence and needs predicate has an LTS
+   instance (4 workers / 128 / 128 / 128, any stream capacities, one-chunk files) *)
+Theorem lts_receiver_abstraction_exists :
+  forall (needs : bytes -> bool) (stats : list stat) (capSR capRS : nat) (pay : nat -> nat -> bytes),
+  (forall id k, pay id k <> []) ->
+  LtsRAcc.rabs_ok (LtsRAcc.lts_rparams_of needs stats capSR capRS) stats needs pay.
+Proof. exact LtsRAccP7.rabs_ok_params_of_proof. Qed.
+
 Print Assumptions req_exactly_needed.
+Print Assumptions receiver_lts_refines_acc.
+Print Assumptions lts_receiver_abstraction_exists.
 Print Assumptions needed_all_requested.
 Print Assumptions stored_is_concat.
 Print Assumptions stored_on_success.
@@ -152,3 +188,21 @@ Example stored_payloads :
     (receiver_run needs0 [S0; S1; Out (PReq 1); S2; Inp (PData 1 [7]); Inp (PData 1 [8; 9]); Inp (PData 1 [])])
   = Some [(1, [[8; 9]; [7]])].
 Proof. vm_compute. reflexivity. Qed.
+
+
+(* the LTS instance of the five stats above (d/ d/a d/b d/h(link) l; d/b not needed), unbuffered
+   stream, run by the first-enabled scheduler to the end (the transport closes after Send has
+   returned): both calls return success, the receiver's boundary trace is an accepted complete
+   trace in which exactly id 1 (d/a) is requested and its payload stored *)
+Example lts_receiver_run_accepted :
+  let stats0 := [mkst pD (ModeDir + 493) []; mkst pA 420 []; mkst pB 420 []; mkst pH 420 pA; mkst pL (ModeSymlink + 511) pD] in
+  let p := LtsRAcc.lts_rparams_of needs0 stats0 0 0 in
+  let ls := LtsRAcc.complete_run p 400 in
+  let tr := LtsRAcc.lts_rtrace p stats0 (fun _ _ => [7]) [] [] (Lts.init p) ls in
+  LtsRAcc.no_faults ls = true /\
+  option_map Lts.send_ret (Lts.run p (Lts.init p) ls) = Some (Some true) /\
+  option_map Lts.recv_ret (Lts.run p (Lts.init p) ls) = Some (Some true) /\
+  receiver_accepts needs0 tr = Some true /\
+  filter (fun e => match e with Out _ => true | _ => false end) tr = [Out (PReq 1); Out PFin] /\
+  option_map (fun s => r_stored s) (receiver_run needs0 tr) = Some [(1, [[7]])].
+Proof. vm_compute. repeat split; reflexivity. Qed.
